@@ -188,7 +188,18 @@ func (x *Exec) freshStruct(name string, n *types.Named, depth int, st *State, in
 	v := &StructV{T: n, Nil: tFalse, F: map[string]Value{}}
 	for i := 0; i < s.NumFields(); i++ {
 		f := s.Field(i)
-		v.F[f.Name()] = x.freshField(name+"."+f.Name(), n, f, depth+1, st, input)
+		fv := x.freshField(name+"."+f.Name(), n, f, depth+1, st, input)
+		if child, ok := fv.(*StructV); ok {
+			if _, isPtr := f.Type().Underlying().(*types.Pointer); isPtr && child.Nil.isFalse() {
+				// a pointer field may be nil unless an invariant or precondition says otherwise
+				nv := freshVar(name+"."+f.Name()+".nil", SBool)
+				if input {
+					x.inputs = append(x.inputs, InputVar{name + "." + f.Name() + ".nil", nv})
+				}
+				child.Nil = nv
+			}
+		}
+		v.F[f.Name()] = fv
 	}
 	if !x.noInvFor[n] {
 		x.assumeTypeInv(v, st)
@@ -341,6 +352,18 @@ func (x *Exec) inlineCall(pk *Pkg, fd *ast.FuncDecl, args []Value, st *State) Va
 		}
 		c := mkAnd(ms.pc[n:]...)
 		if mv != nil || r.v != nil {
+			// objects created on different return paths are merged as values; a single object keeps its identity
+			// (so a ghost body may go on to mutate what a constructor returned)
+			if a, ok := mv.(RefV); ok {
+				if b, ok2 := r.v.(RefV); !ok2 || a.ID != b.ID {
+					mv = x.freeze(mv, ms)
+				}
+			}
+			if b, ok := r.v.(RefV); ok {
+				if a, ok2 := mv.(RefV); !ok2 || a.ID != b.ID {
+					r.v = x.freeze(r.v, r.st)
+				}
+			}
 			mv = mergeValues(c, mv, r.v)
 		}
 		ms = mergeStates(ms, r.st)
@@ -749,7 +772,10 @@ func (x *Exec) execStmt(s ast.Stmt, st *State) *State {
 		if st.dead() {
 			return nil
 		}
-		v = x.freeze(v, st)
+		if len(x.frames) == 1 {
+			// the unit under verification: results are judged as values
+			v = x.freeze(v, st)
+		}
 		fr.rets = append(fr.rets, &retRec{st: st, v: v})
 		return nil
 	case *ast.IfStmt:
